@@ -8,6 +8,7 @@ package c17
 
 import (
 	"bytes"
+	"encoding/json"
 	"errors"
 	"fmt"
 	"io"
@@ -25,7 +26,7 @@ import (
 
 func init() {
 	vf.Register(&vf.CheckDef{ID: "C17", Level: "fault_enumeration", Run: run,
-		Workers: map[string]vf.WorkerFunc{"sched": schedWorker, "binary": binaryWorker}})
+		Workers: map[string]vf.WorkerFunc{"sched": schedWorker, "binary": binaryWorker}, Replay: replay})
 }
 
 const N = 4
@@ -307,6 +308,44 @@ func trunc(s string, n int) string {
 	return s
 }
 
+func replay(c *vf.Ctx, raw json.RawMessage) {
+	var rp struct {
+		Config   string   `json:"config"`
+		B        int      `json:"b"`
+		Schedule []int    `json:"schedule"`
+		Command  string   `json:"command"`
+		Argv     []string `json:"argv"`
+	}
+	json.Unmarshal(raw, &rp)
+	if rp.Command != "" {
+		fmt.Printf("replay of a real-binary case: run\n  MLR=$(cd /verif && bin/verif mlr) D=$(mktemp -d) sh -c %q\n", rp.Command)
+		return
+	}
+	if !verifrt.Instrumented {
+		vf.ExecSchedReplay("C17", c.Only)
+		return
+	}
+	dir, _ := os.MkdirTemp("/dev/shm", "verif-c17r-")
+	defer os.RemoveAll(dir)
+	for _, quick := range []bool{true, false} {
+		cs := configs(quick)
+		for i := range cs {
+			if cs[i].Name != rp.Config {
+				continue
+			}
+			w := &vf.Worker{Only: -1}
+			replaySched = rp.Schedule
+			defer func() { replaySched = nil }()
+			exploreCfg(w, &cs[i], rp.B, dir)
+			return
+		}
+	}
+	fmt.Println("replay: configuration not found in the current enumeration")
+}
+
+// when set, exploreCfg replays this one schedule (twice, with trace) instead of exploring
+var replaySched []int
+
 func exploreCfg(w *vf.Worker, c *cfg, b int, dir string) {
 	tee := filepath.Join(dir, "tee.out")
 	var argv []string
@@ -366,6 +405,24 @@ func exploreCfg(w *vf.Worker, c *cfg, b int, dir string) {
 		MaxExecs:  40000,
 		MaxSteps:  4000,
 		StallSecs: 10,
+	}
+	if replaySched != nil {
+		o1, r1 := vf.ReplaySchedule(spec, replaySched)
+		o2, r2 := vf.ReplaySchedule(spec, replaySched)
+		fmt.Printf("replay of %s|b=%d\n  argv %v\n  schedule %v\n  deadlock=%v horizon=%v steps=%d outcome=%q\n", c.Name, b, argv, replaySched, r1.Deadlock, r1.Horizon, r1.Steps, o1)
+		if r1.Deadlock {
+			fmt.Printf("  blocked: %v\n", r1.Blocked)
+		}
+		fmt.Println("  trace (goroutine:operation@site):")
+		for i, t := range r1.Trace {
+			fmt.Printf("    %3d %s\n", i, t)
+		}
+		if o1 != o2 || r1.Deadlock != r2.Deadlock || r1.Steps != r2.Steps {
+			fmt.Println("BROKEN: property=C17 the same schedule produced different observations on two replays")
+		} else {
+			fmt.Println("  second replay: identical observations")
+		}
+		return
 	}
 	r := vf.Explore(spec)
 	if os.Getenv("VERIF_C17_TRACE") != "" {
